@@ -69,6 +69,12 @@ func genPool(repo string) (*leanFile, error) {
 								args = append(args, exprStr(a))
 							}
 							how = fun + "(" + strings.Join(args, ", ") + ")"
+							// the one access the model knows: an atomic add of the constant 1 to the counter itself
+							// (whatever the receiver is called, in whatever function it stands)
+							if fun == "atomic.AddUint64" && len(e.Args) == 2 && strings.HasPrefix(args[0], "&") &&
+								strings.HasSuffix(args[0], ".idCounter") && args[1] == "1" {
+								how = "atomic-add-1"
+							}
 						} else {
 							how = "call:" + fun[strings.LastIndex(fun, ".")+1:]
 						}
@@ -113,4 +119,4 @@ func genPool(repo string) (*leanFile, error) {
 	return lf, nil
 }
 
-func init() { extraGens = append(extraGens, genPool) }
+func init() { extraGens = append(extraGens, namedGen{"Pool.lean", genPool}) }
